@@ -19,7 +19,7 @@ def main(argv):
         # files regenerated from /repo by translators must exist before the full build
         import py2coq
         print("translator:", py2coq.generate_murmur(vlib.REPO, os.path.join(vlib.COQ, "Model", "MurmurGen.v")))
-        for mod in ("assign_tie",):      # other translator ties that keep a committed snapshot of the translation of /repo
+        for mod in ("assign_tie", "part_tie"):      # other translator ties that keep a committed snapshot of the translation of /repo
             try:
                 m = importlib.import_module(mod)
                 print("translator (%s):" % mod, m.refresh_snapshot())
